@@ -771,6 +771,48 @@ func (s *tcpSys) Check(e Edge, obs []Obs) []Mismatch {
 	// ---- state -------------------------------------------------------------
 	ts, _ := e.TS.([]any)
 	ms = append(ms, s.checkState(ts)...)
+	// a Connect / inbound connection of client c that the specification lets through but the server refuses
+	// while ANOTHER 5-tuple holds a connection to the same peer: the answer depended on a foreign allocation
+	if c, _ := e.A["c"].(string); len(ms) > 0 && (name == "Connect" || name == "PeerConnect") && c != "" {
+		if ss, _ := e.SS.([]any); len(ss) > 2 {
+			each := func(f func(map[string]any)) {
+				switch cs := ss[2].(type) {
+				case []any:
+					for _, v := range cs {
+						if r, ok := v.(map[string]any); ok {
+							f(r)
+						}
+					}
+				case map[string]any:
+					for _, v := range cs {
+						if r, ok := v.(map[string]any); ok {
+							f(r)
+						}
+					}
+				}
+			}
+			own, foreign := false, false
+			each(func(r map[string]any) {
+				if open, _ := r["open"].(bool); !open || fmt.Sprint(r["peer"]) != fmt.Sprint(e.A["p"]) {
+					return
+				}
+				if r["owner"] == c {
+					own = true
+				} else {
+					foreign = true
+				}
+			})
+			refused := false
+			for _, m := range ms {
+				if m.Kind == "resp.class" || m.Kind == "tcp.inbound-" || m.Kind == "tcp.conn-" || m.Kind == "resp.code" {
+					refused = true
+				}
+			}
+			if foreign && !own && refused {
+				ms = append(ms, Mismatch{"bystander", fmt.Sprintf("%v of %v toward %v was refused while only another 5-tuple's allocation holds a connection to that peer", name, c, e.A["p"])})
+			}
+		}
+	}
 
 	return ms
 }
